@@ -61,7 +61,7 @@ func twinRun(a, b prog.Program, oa, ob prog.RunOpts, diffKind string, seqOnly bo
 
 func init() { evals["C02"] = evalC02 }
 
-var c02Sched = []string{"attach", "attach", "detach", "reattach", "cachepurge", "cacheremove", "pushonly", "compact"}
+var c02Sched = []string{"attach", "attach", "detach", "reattach", "cachepurge", "cacheremove", "pushonly", "compact", "syncedit"}
 
 // evalC02: snapshot catch-up == change replay. Run A uses the drawn small
 // snapshot interval/threshold; run B is the same program in a project that
@@ -109,7 +109,7 @@ func TestC02(t *testing.T) {
 
 func init() { evals["C03"] = evalC03 }
 
-var c03Sched = []string{"attach", "detach", "reattach", "pushonly", "round", "round"}
+var c03Sched = []string{"attach", "detach", "reattach", "pushonly", "round", "round", "losesync", "syncedit", "syncedit"}
 
 // evalC03: the identical program with garbage collection on (client GC on
 // change pulls, server GC before snapshots) and off must never fail a sync or
@@ -164,6 +164,17 @@ func genC03() *rapid.Generator[prog.Program] {
 		if p.Cfg.N >= 3 && rapid.IntRange(0, 2).Draw(t, "staggered") == 0 {
 			p.Steps = append(p.Steps, staggeredPurge(t, p.Cfg.N, rapid.IntRange(1, 3).Draw(t, "episodes"))...)
 		}
+		// a sixth of the cases end in "in-flight" episodes in a project with a
+		// small snapshot threshold: X deletes (and edits enough for the
+		// laggard R to be served by snapshot); R synchronises and goes on
+		// editing next to what it still sees while the request is in flight
+		// (or the response is lost); X synchronises twice (it may purge what
+		// the server believes everybody has seen); R pushes; X pulls.
+		if rapid.IntRange(0, 5).Draw(t, "inflight") == 0 {
+			p.Cfg.Threshold = int64(rapid.IntRange(1, 3).Draw(t, "ifthreshold"))
+			p.Cfg.Interval = int64(rapid.IntRange(1, 4).Draw(t, "ifinterval"))
+			p.Steps = append(p.Steps, inflightEpisodes(t, p.Cfg.N, int(p.Cfg.Threshold), rapid.IntRange(1, 3).Draw(t, "ifepisodes"))...)
+		}
 		return p
 	})
 }
@@ -194,6 +205,41 @@ func staggeredPurge(t *rapid.T, n, episodes int) []prog.Step {
 		}
 		out = append(out, sync(r), prog.Step{Op: "round"})
 	}
+	return out
+}
+
+func inflightEpisodes(t *rapid.T, n, threshold, episodes int) []prog.Step {
+	var out []prog.Step
+	sync := func(w int) prog.Step { return prog.Step{Who: w, Op: "sync"} }
+	for e := 0; e < episodes; e++ {
+		out = append(out, prog.Step{Op: "round"}, prog.Step{Who: 1, Op: "round"})
+		x := rapid.IntRange(0, n-1).Draw(t, "x")
+		r := (x + 1 + rapid.IntRange(0, n-2).Draw(t, "r")) % n
+		kind := rapid.IntRange(0, 2).Draw(t, "kind")
+		del := [][]string{{"adel", "adel", "amove", "aadd"}, {"tedit"}, {"trdel", "trtext", "trtext"}}[kind]
+		follow := [][]string{{"amovefront", "amove", "ains", "aadd", "aset", "adel"}, {"tedit", "tedit", "tstyle"}, {"trins", "trtext", "trdel", "trstyle"}}[kind]
+		// X: enough changes for R to fall behind the snapshot threshold, deletions among them
+		for k := threshold + rapid.IntRange(0, 2).Draw(t, "more"); k > 0; k-- {
+			out = append(out, prog.Step{Who: x, Op: rapid.SampledFrom(del).Draw(t, "del"),
+				A: rapid.IntRange(0, 7).Draw(t, "a"), B: rapid.IntRange(1, 3).Draw(t, "b")})
+		}
+		out = append(out, sync(x))
+		fop := prog.Step{Who: r, A: rapid.IntRange(0, 7).Draw(t, "a"), B: rapid.IntRange(0, 7).Draw(t, "b"), C: rapid.IntRange(0, 8).Draw(t, "c")}
+		if rapid.Bool().Draw(t, "lost") {
+			// the response is lost: R still holds the old state and edits on
+			fop.Op = rapid.SampledFrom(follow).Draw(t, "op")
+			out = append(out, prog.Step{Who: r, Op: "losesync"}, fop)
+		} else {
+			fop.Op, fop.E = "syncedit", rapid.SampledFrom(follow).Draw(t, "op")
+			out = append(out, fop)
+		}
+		out = append(out, sync(x), sync(x))
+		if rapid.Bool().Draw(t, "serverbuild") {
+			out = append(out, prog.Step{Op: "histview", A: 7, B: 7})
+		}
+		out = append(out, sync(r), sync(x))
+	}
+	out = append(out, prog.Step{Op: "round"})
 	return out
 }
 
